@@ -194,8 +194,10 @@ def read_qasm(text, mode, version, nq, name):
     gname = m.group(1)
     formals = m.group(2).split()
     i += 1
-    if gname != name:
-        finds.append(("qasm-name", "gate named %r, circuit named %r" % (gname, name)))
+    # the property does not fix the gate's name, but the declaration must not shadow (or, through
+    # its own body, call) one of the mnemonics gate bodies are written in
+    if QASM_GATE.fullmatch(gname.lower()) or not gname.startswith(name):
+        finds.append(("qasm-name", "gate declared as %r (circuit named %r): the name is a gate mnemonic or unrelated to the circuit" % (gname, name)))
     if len(formals) != nq or len(set(formals)) != len(formals):
         finds.append(("qasm-formals", "gate declares %d formal parameters (%s) for %d qubits" % (len(formals), " ".join(formals)[:80], nq)))
     body = []
@@ -296,7 +298,7 @@ def build_hist(c, fw, mode):
     """a circuit reached through a short history: optional qubit names ([name, index] pairs applied
     with qc[name] = index, which may leave a qubit without a name of its own), and optionally an
     export in between followed by more renames/gates (the export judged is that of the final state)"""
-    qc = circorp.build(c["gates"], c["nq"], "qc")
+    qc = circorp.build(c["gates"], c["nq"], c.get("cname", "qc"))
     for nm, i in c.get("names", []):
         qc[nm] = i
     if "then" in c or "then_names" in c:
@@ -306,7 +308,7 @@ def build_hist(c, fw, mode):
             pass
         for nm, i in c.get("then_names", []):
             qc[nm] = i
-        more = circorp.build(c.get("then", []), c["nq"], "qc")
+        more = circorp.build(c.get("then", []), c["nq"], c.get("cname", "qc"))
         for g, w, p in more.gates:
             qc.append(g, list(w), p)
     return qc
@@ -327,6 +329,14 @@ HIST = [
     {"nq": 3, "gates": [["h", [0]], ["cx", [0, 1]], ["ccx", [0, 1, 2]]], "names": [["b", 0], ["a", 1], ["c", 2]], "then_names": [["c", 0]], "then": [["x", [2]], ["cx", [2, 0]]]},
     {"nq": 4, "gates": [["cx", [0, 3]], ["ccx", [0, 1, 2]]], "names": [["a", 0], ["b", 1], ["c", 2], ["d", 3]], "then_names": [["d", 1]], "then": [["cx", [3, 1]], ["x", [3]]]},
     {"nq": 3, "gates": [["x", [1]], ["cx", [1, 2]]], "then_names": [["q2", 1]], "then": [["cx", [2, 1]], ["x", [2]]]},
+    # circuits named like the mnemonics their bodies are written in
+    {"nq": 2, "gates": [["x", [1]], ["cx", [0, 1]]], "cname": "cx"},
+    {"nq": 2, "gates": [["h", [0]], ["cx", [0, 1]]], "cname": "cz"},
+    {"nq": 1, "gates": [["x", [0]]], "cname": "x"},
+    {"nq": 2, "gates": [["x", [0]], ["cx", [0, 1]]], "cname": "h"},
+    {"nq": 3, "gates": [["ccx", [0, 1, 2]], ["cx", [0, 1]]], "cname": "swap"},
+    {"nq": 3, "gates": [["ccx", [0, 1, 2]], ["x", [2]]], "cname": "ccx"},
+    {"nq": 2, "gates": [["cp", [0, 1], 0.0], ["cx", [0, 1]], ["cp", [1, 0], 0.5]], "cname": "p"},
 ]
 
 
@@ -338,14 +348,22 @@ def export(qc, fw, mode):
     return qc.export(mode, fw)
 
 
-def judge(label, qc, fw, mode, st, solver):
+def judge(label, qc, fw, mode, st, solver, pre=None):
+    """pre: (fingerprint before the export, exported object or exception) when the export was made
+    earlier - every circuit of a batch is exported before any export is read, so that exports which
+    share state with each other (or with later exports) are read in that state"""
     out = []
     nq = qc.num_qubits
-    fp0 = [(g.name, list(w), p) for g, w, p in qc.gates]
-    try:
-        obj = export(qc, fw, mode)
-    except Exception as e:
-        return [("export-raises", "%s: %s" % (type(e).__name__, str(e)[:80]))]
+    if pre is not None:
+        fp0, obj = pre
+        if isinstance(obj, Exception):
+            return [("export-raises", "%s: %s" % (type(obj).__name__, str(obj)[:80]))]
+    else:
+        fp0 = [(g.name, list(w), p) for g, w, p in qc.gates]
+        try:
+            obj = export(qc, fw, mode)
+        except Exception as e:
+            return [("export-raises", "%s: %s" % (type(e).__name__, str(e)[:80]))]
     if [(g.name, list(w), p) for g, w, p in qc.gates] != fp0:
         out.append(("input-modified", "export changed the circuit"))
     try:
@@ -454,9 +472,16 @@ def check_item(spec):
                 continue
     else:
         circs = [(circorp.show(c["gates"]) + (" names=%s" % c["names"] if c.get("names") else "") + (" then " + circorp.show(c["then"]) if c.get("then") else ""), build_hist(c, fw, mode)) for c in spec["circuits"]]
+    pres = []
     for label, qc in circs:
+        fp0 = [(g.name, list(w), p) for g, w, p in qc.gates]
+        try:
+            pres.append((fp0, export(qc, fw, mode)))
+        except Exception as e:
+            pres.append((fp0, e))
+    for (label, qc), pre in zip(circs, pres):
         n += 1
-        for kind, what in judge(label, qc, fw, mode, st, solver):
+        for kind, what in judge(label, qc, fw, mode, st, solver, pre):
             if kind == "SKIP":
                 skipped += 1
                 res.setdefault("skip_reasons", {})
